@@ -330,3 +330,86 @@ def strip_bool(e):
             e = e[2][0]
         else:
             return neg, e
+
+
+# ------------------------------------------------------------------ place walking
+
+def all_places(body, normal_only=True):
+    """yield (bb, place, ctx, line) for every place mentioned in the body.
+    ctx: 'write' (assignment target / call destination), 'ref', 'refmut', 'rawptr', 'move', 'copy', 'discr', 'drop'"""
+    blocks = sorted(body.normal_blocks()) if normal_only else range(body.n)
+
+    def ops(op, bb, line):
+        if op[0] in ("copy", "move"):
+            yield bb, op[1], op[0], line
+
+    for b in blocks:
+        blk = body.blocks[b]
+        for st in blk["s"]:
+            if st[0] == "=":
+                line = st[3]
+                yield b, st[1], "write", line
+                rv = st[2]
+                k = rv[0]
+                if k == "use":
+                    yield from ops(rv[1], b, line)
+                elif k == "ref":
+                    yield b, rv[2], "refmut" if rv[1] == "mut" else "ref", line
+                elif k == "rawptr":
+                    yield b, rv[2], "rawptr", line
+                elif k == "bin":
+                    yield from ops(rv[2], b, line)
+                    yield from ops(rv[3], b, line)
+                elif k in ("un", "cast"):
+                    yield from ops(rv[2], b, line)
+                elif k == "discr":
+                    yield b, rv[1], "discr", line
+                elif k == "agg":
+                    for o in rv[2]:
+                        yield from ops(o, b, line)
+                elif k == "repeat":
+                    yield from ops(rv[1], b, line)
+            elif st[0] == "setdiscr":
+                yield b, st[1], "write", st[3]
+        t = blk["t"]
+        line = t.get("line")
+        if t["k"] == "call":
+            yield b, t["dest"], "write", line
+            for a in t["args"]:
+                yield from ops(a, b, line)
+            if t["f"].get("kind") != "def" and "op" in t["f"]:
+                yield from ops(t["f"]["op"], b, line)
+        elif t["k"] == "switch":
+            yield from ops(t["discr"], b, line)
+        elif t["k"] == "assert":
+            yield from ops(t["cond"], b, line)
+        elif t["k"] == "drop":
+            yield b, t["place"], "drop", line
+
+
+def field_accesses(body, field_index, field_ty_prefix=None, normal_only=True):
+    """[(bb, place, ctx, line, proj_pos)] places that project field `field_index` (optionally with
+    a recorded field type starting with field_ty_prefix)"""
+    out = []
+    for b, p, c, line in all_places(body, normal_only):
+        for i, e in enumerate(p[1]):
+            if isinstance(e, list) and e[0] == "f" and e[1] == field_index and (field_ty_prefix is None or e[2].startswith(field_ty_prefix)):
+                out.append((b, p, c, line, i))
+                break
+    return out
+
+
+def closure_arg_source(facts, closure_fn, arg_index=2):
+    """For a closure passed inline to a combinator (map/and_then/…) in its parent body: the
+    expression of the combinator's receiver (what the closure's argument is derived from).
+    returns (parent_fn, receiver_expr, combinator_name) or None"""
+    parent = facts.fn_opt(closure_fn.lexical_parent or closure_fn.parent) if (closure_fn.lexical_parent or closure_fn.parent) else None
+    if parent is None:
+        return None
+    pb = parent.body
+    for bb, t in pb.calls():
+        for ai, a in enumerate(t["args"]):
+            e = strip(pb.expr_of_op(a))
+            if e[0] == "agg" and e[1] == "closure" and e[2] == closure_fn.key and ai > 0:
+                return parent, pb.expr_of_op(t["args"][0]), t["f"].get("name")
+    return None
